@@ -2,9 +2,11 @@ SPECIFICATION Spec
 CONSTANTS
   Ident = "kitty"
   Style3 = "block"
-  Bits = 2
+  Bits = 3
   Fams = {"P", "T"}
-  WithBad = TRUE
+  WithBad = FALSE
+  WithInv = TRUE
+  Dyn = FALSE
 VIEW View
 INVARIANT PlacementsExact
 INVARIANT OutputBracketed
